@@ -14,6 +14,8 @@ import Bng.Map
     the subscriber in agreement with a collision-free record.
     An acknowledged local write must be in the store: a record older than the last write that answered ok,
     or a missing record under a live lease, is a `store-agree` verdict of its own.
+  * a Start whose load Query fails must refuse to start (`restart`): a node must not come up empty over a
+    store that holds records.
   * a remote put that can be applied (in range, prefix free or already the subscriber's, not stale)
     must make Get answer exactly the announced prefix (`remote`).
   * serialise/restore: the original and the restored allocator must answer every later operation
@@ -55,6 +57,8 @@ abbrev RevRow := Nat × Nat × Option Nat
 inductive Ev where
   | audit (rows : List Row) (rev : List RevRow)
   | restarted
+  /-- a restart whose load Query was made to fail, over a store that holds records: did Start claim success? -/
+  | startOutcome (queryFailed storeHasRecords implOk : Bool)
   /-- the subscriber's record was (re)written or deleted by a local operation that answered ok;
       `epoch` = the epoch an acknowledged write must carry (none: deleted / not epoch-stamped) -/
   | mutated (k : Nat) (epoch : Option Nat)
@@ -134,6 +138,11 @@ def check (m : Mon) : Ev → Mon × List Verdict
      dupGet rows ++ reverseCheck rows rev ++ ackCheck m rows ++
        bad.map fun r => (name, s!"s{r.1}: the store and Get disagree", collided r))
   | .restarted => ({ m with afterRestart := true, acked := [] }, [])
+  | .startOutcome qf has ok =>
+    ({ m with afterRestart := true, acked := [] },
+     if qf && has && ok then
+       [("restart", "Start reported success although the Query of its load step failed: the node serves with an empty pool over a store that holds records", false)]
+     else [])
   | .mutated k e =>
     ({ m with afterRestart := false,
               acked := match e with
